@@ -1103,6 +1103,32 @@ def run(ctx):
     ck.info['escape_items_examined'] = examined
     ck.info['escape_unknown_externals'] = dict(sorted(esc.unknown_external.items(), key=lambda kv: -kv[1])[:60])
 
+    # the WARC recorder listens to the sessions' data events (--warc-file): what its listeners raise on the bytes they are handed
+    # leaves the reader that notified them.  File-system failures are local (LOCAL_IO); what depends on the bytes is not.
+    rec_entries = []
+    for f in repo.funcs.values():
+        if f.module.name == 'wpull.warc.recorder' and f.cls is not None and f.cls.name.endswith('RecorderSession') and 'data' in f.params:
+            rec_entries.append(f)
+    if len(rec_entries) < 4:
+        raise AnalysisError('expected the data listeners of the HTTP and FTP recorder sessions (found %d)' % len(rec_entries))
+    rseeds = seeds + [(f.qual, 'data') for f in rec_entries]
+    rtaint = Taint(repo, res, seed_params=rseeds, exclude=('wpull.thirdparty', 'wpull.proxy.server'), clean=clean)
+    resc = Escape(repo, res, summaries=summaries, taint=rtaint, codec_lookup=True,
+                  stop_modules=tuple(m for m in OUT_OF_SCOPE_MODULES if m != 'wpull.warc'), external=LOCAL_IO)
+    for f in sorted(rec_entries, key=lambda f: f.qual):
+        items = resc.escapes(f)
+        for it in sorted(items):
+            if any(resc.is_sub(it.type, h) for h in handled) or not _tainted_item(rtaint, resc, it, ctx):
+                continue
+            where, cons = _key(resc, it)
+            if (where, cons) in seen:
+                continue
+            seen[(where, cons)] = f.qual
+            ck.bad('C09-D1', where, cons, '%s raised at %s depends on the bytes handed to the recorder\'s listener %s: it leaves the protocol '
+                   'reader that notified the listener, is no per-URL error, and the crawl stops' % (it.type.split(':')[-1], it.origin, f.qual),
+                   it.origin.split(' ')[0])
+        ck.ok('C09-D1', f.qual, 'recorder listener: escape set of %d item(s) examined' % len(items))
+
     _d7_pasv(ctx)
     _d8_event_pairs(ctx)
 
@@ -1200,6 +1226,8 @@ def run(ctx):
     if n_z < 2:
         ck.bad('C09-D3', 'wpull.protocol.http.stream', 'decompressor call sites', 'only %d decompressor sites found (expected 2)' % n_z)
 
+    from .common import redirect_target_guarded_rule
+    redirect_target_guarded_rule(ctx, 'C09-D3')
 
     # ------------------------------------------------------------------ D6
     from .. import flow as F
